@@ -4,3 +4,5 @@
 package mtproto
 
 func verifGate(string, ...interface{}) {}
+
+func verifClock(msgID int64) int64 { return msgID }
